@@ -174,6 +174,10 @@ def unbool(element, true=object(), false=object()):
         return true
     elif element is False:
         return false
+    elif isinstance(element, list):
+        return [unbool(each) for each in element]
+    elif isinstance(element, dict):
+        return {k: unbool(v) for k, v in element.items()}
     return element
 
 
